@@ -1,5 +1,6 @@
 import HkModel.Drive.Json
 import HkModel.Model.IngressAuth
+import HkModel.Model.IngressReload
 /-! driver mode `auth`: authentication sequences (stateful: nonce cache, history of accepted nonces) -/
 namespace Hk.DriveAuth
 open Lean Hk.J Hk.IngressAuth
@@ -7,7 +8,7 @@ open Lean Hk.J Hk.IngressAuth
 structure AState where
   cfg : HmacCfg := {}
   users : List (String × String) := []
-  cache : Cache := []
+  auth : AuthState := { tol := 0 }             -- what survives reloads: tolerance in force, nonce cache, floor
   accepted : List (String × Int × Int) := []   -- (nonce, signed time, window end) of every accepted request; the window
                                                -- end is signed time + tolerance, moved out by a reload that raises the
                                                -- tolerance while the window is still open
@@ -32,14 +33,15 @@ def step (st : AState) (line : String) : AState × String :=
     let tag := line.trimAscii.toString
     match str j "k" with
     | "acfg" =>
-      ({ st with cfg := cfgOf (obj j "hmac"), cache := [], accepted := [], acceptedRaw := [],
+      ({ st with cfg := cfgOf (obj j "hmac"), auth := { tol := (cfgOf (obj j "hmac")).tol }, accepted := [], acceptedRaw := [],
                  users := (arr j "users").map (fun p => match asArr p with | [a, b] => (asStr a, asStr b) | _ => ("", "")) }, "ok")
     | "areload" =>
-      -- the authenticator's nonce cache survives a reload; a longer tolerance extends the remembered windows
+      -- the authenticator's nonce cache survives a reload; a longer tolerance extends the remembered windows and sets the
+      -- floor below which signed times stay refused (`reloadR`)
       let tol' := if has j "tol" then int j "tol" else st.cfg.tol
       let delta := if tol' > st.cfg.tol then tol' - st.cfg.tol else 0
       let now := int j "now"
-      ({ st with cfg := { st.cfg with tol := tol' }, cache := st.cache.map (fun e => (e.1, e.2 + delta)),
+      ({ st with cfg := { st.cfg with tol := tol' }, auth := reloadR st.auth now tol',
                  accepted := st.accepted.map (fun (n, t0, e) => (n, t0, if now ≤ e then e + delta else e)) }, "ok")
     | "areq" =>
       let now := int j "now"
@@ -49,20 +51,21 @@ def step (st : AState) (line : String) : AState × String :=
       | "hmac" =>
         let rq : HReq := { sig := str j "sig", ts := str j "ts", nonce := str j "nonce", method := str j "method",
                            path := str j "path", body := bytesOfHex (str j "body") }
-        let (cache', ok) := verify Sha256.hmac st.cfg now st.cache rq
+        let (auth', ok) := verifyR Sha256.hmac st.cfg st.auth now rq
         let tOK := timeOK st.cfg now rq
         let condOK := match tOK with | some t => sigOK Sha256.hmac st.cfg t rq | none => false
         let nonce := Hk.Egress.trimWS rq.nonce
         -- a request with this nonce was accepted before and its signed time still passes the (current) tolerance
         let replay := st.accepted.any (fun (n, _, e) => n == nonce && decide (now ≤ e))
-        -- the window had closed under the tolerance in force when the request was accepted, and a reload that
-        -- RAISED the tolerance re-opened it (the purged nonce cannot be remembered): a distinct, documented class
-        let reopened := !replay && st.accepted.any (fun (n, t0, e) => n == nonce && decide (now > e) && decide (now ≤ t0 + st.cfg.tol))
+        -- the window had closed under the tolerance in force when the request was accepted, and a reload that RAISED the
+        -- tolerance lets the very same signed time pass again: the captured request (same nonce, same signed time) must
+        -- stay refused (the nonce itself is only owed a rejection while its window has been open *continuously*)
+        let reopened := !replay && st.accepted.any (fun (n, t0, e) => n == nonce && some t0 == tOK && decide (now > e) && decide (now ≤ t0 + st.cfg.tol))
         -- "a captured valid request can never cause a second enqueue": the very same request accepted again, whatever the
         -- instant (inside its window the nonce stops it, outside the tolerance check does)
         let raw := s!"{rq.sig}|{rq.ts}|{rq.nonce}|{rq.method}|{rq.path}|{str j "body"}"
         let twice := st.acceptedRaw.contains raw
-        let st' := { st with cache := cache',
+        let st' := { st with auth := auth',
                              acceptedRaw := if status == 202 && !twice then raw :: st.acceptedRaw else st.acceptedRaw,
                              accepted := if status == 202 then (nonce, tOK.getD 0, tOK.getD 0 + st.cfg.tol) :: st.accepted else st.accepted }
         if status == 202 && !condOK && !twice then (st', s!"PROP C08,C17 accepted-without-valid-hmac in={tag}")
